@@ -1,0 +1,14 @@
+//go:build !verif
+
+package dnsmsg
+
+// No-op twins of the verification hooks (see verif_c20.go, build tag "verif").
+// With the tag off the object pools behave exactly as before.
+
+func verifGetMsg() *Msg { return nil }
+
+func verifGetQuestion() *Question { return nil }
+
+func verifObjRelease(o any) bool { return false }
+
+func verifObjQuarantine(o any) bool { return false }
